@@ -5,7 +5,9 @@ use crate::ts::*;
 use vh::vsched::*;
 use std::collections::VecDeque;
 use std::path::PathBuf;
-use std::sync::atomic::{AtomicBool, Ordering};
+// (the stop flag's type is the crate-under-test's: std's atomics, or the scheduled ones when this file is compiled
+// against the copy of the crate with redirected std::sync imports)
+use crate::flagtype::{AtomicBool, Ordering};
 use std::sync::{Arc, Mutex};
 use varlink::{ConnectionHandler, ListenConfig};
 
